@@ -76,7 +76,11 @@ def scrub(result):
         args = scrub(result.args)
         op = fmap.get(result.op, result.op)
         if args is SQL_NULL:
-            null_locations.append((kwargs, op))
+            if scrub_op is simple_op:
+                null_locations.append((kwargs, op))
+            else:
+                args = [SQL_NULL]
+                null_locations.append((args, 0))
         return scrub_op(op, args, kwargs)
     elif isinstance(result, dict) and not result:
         return {}
